@@ -80,10 +80,19 @@ func execC02(p *drv.Plan) *Out {
 			if s.Op != drv.OpReads {
 				q.Steps = append(q.Steps, s)
 			}
+			if s.ID == r1.Vio.StepID {
+				break // the twin ends where the violation was seen (later steps may discard the state)
+			}
 		}
-		// (the twin compares the same hashes, but makes no read-only call of its own)
-		r2 := drv.RunPlan(q, q.Config, drv.Hooks{Prop: "C02", After: func(w *drv.World, s drv.Step) *drv.Violation { return w.AuditHashes() }})
-		if r2.Vio != nil || (r2.Foreign != nil && r2.Foreign.Oracle == "C10.import-hash") {
+		// (the twin makes no read-only call at all while it runs: only the
+		// hashes its commits return are compared, and all hashes once at the end)
+		r2 := drv.RunPlan(q, q.Config, drv.Hooks{Prop: "C02"})
+		// (any failure of the twin counts: without reads the history goes wrong as well)
+		twinBad := r2.Vio != nil || r2.Foreign != nil
+		if !twinBad && r2.Foreign == nil && r2.W.Tree != nil {
+			twinBad = r2.W.Guard("C02", "C02.hash", "twin", func() *drv.Violation { return r2.W.AuditHashes() }) != nil
+		}
+		if twinBad {
 			r1.Vio.Class = "write-path/" + r1.Vio.Class
 		} else {
 			r1.Vio.Class = "read-changed-hash/" + r1.Vio.Class
